@@ -93,18 +93,9 @@ type StoredEvent struct {
 // WithStore enables persistence with the given store
 func WithStore(store EventStore) Option {
 	return func(bus *EventBus) {
+		// Events are persisted by PublishContext itself, after the before-publish
+		// hooks, so that no later hook option can displace persistence
 		bus.store = store
-
-		// Chain the persistence hook with any existing context-aware hook
-		existingHook := bus.beforePublishCtx
-		bus.beforePublishCtx = func(ctx context.Context, eventType reflect.Type, event any) {
-			// Call existing hook first if any
-			if existingHook != nil {
-				existingHook(ctx, eventType, event)
-			}
-			// Then persist the event
-			bus.persistEvent(ctx, eventType, event)
-		}
 	}
 }
 
